@@ -16,7 +16,11 @@ PSVI), its attributes after defaulting and the element default text.
 Genuine defects of the pinned tree found by this check are listed in known_findings.d/C08.json (printed as
 KNOWN-FINDING, exit 0); every other disagreement is a VIOLATION.
 
-Mutants (mutants/C08/*.diff, `./bin/mutant-run C08 mutants/C08/*.diff`), all DETECTED by the quick tier:
+Mutants (mutants/C08/*.diff, `./bin/mutant-run C08 mutants/C08/*.diff`; output in mutants/C08/RESULTS.txt). DETECTED by the
+quick tier: counting_max_off_by_one, nil_content_accepted, all_duplicate_accepted, block_substitution_needs_abstract. The other
+three (other_admits_tns, prohibited_attr_accepted, xsitype_block_first_step_only) were written but their mutant-run had to be
+stopped (machine load); the cases that expose them are in the family (S5 ##other + tns child; S9/S11 prohibited use without
+wildcard; S7 xsi:type=tZ with block="extension" on the element).
   counting_max_off_by_one            DFAContentModel::handleRepetitions: ++loop > max + 1                    (S1/S2/S4: a{2,3}, a{0,2})
   other_admits_tns                   DFAContentModel::validateContent: ##other admits the target namespace   (S5)
   nil_content_accepted               SchemaValidator::checkContent: character content of a nilled element    (S8)
